@@ -252,3 +252,214 @@ Proof.
   destruct (lget L _) as [o|e]; cbn [bind]; [|reflexivity].
   destruct (truthy o); cbn [negb]; [|reflexivity]. destruct (node_str o); reflexivity.
 Qed.
+
+(* ====================================================================================================================================
+   Locale.get / Locale.translation: the translated split-walk-catch with the per-object memo _key_cache  =  LocaleBase.lookup on the path
+   ==================================================================================================================================== *)
+From Coq Require Import Ascii NArith.
+
+Lemma map_inj {A B} (f : A -> B) : (forall x y, f x = f y -> x = y) -> forall l l', map f l = map f l' -> l = l'.
+Proof.
+  intros I. induction l as [|x l IH]; intros [|y l'] H; try reflexivity; try discriminate.
+  cbn in H. injection H as H1 H2. rewrite (I _ _ H1), (IH _ H2). reflexivity.
+Qed.
+Lemma pstr_of_string_inj s t : pstr_of_string s = pstr_of_string t -> s = t.
+Proof.
+  unfold pstr_of_string. intros H. apply map_inj in H.
+  - rewrite <- (string_of_list_ascii_of_string s), <- (string_of_list_ascii_of_string t), H. reflexivity.
+  - intros x y E. apply N2Z.inj in E. rewrite <- (ascii_N_embedding x), <- (ascii_N_embedding y), E. reflexivity.
+Qed.
+Lemma pstr_eqb_neq a b : a <> b -> pstr_eqb a b = false.
+Proof. intros N. destruct (pstr_eqb a b) eqn:E; [|reflexivity]. apply pstr_eqb_eq in E. contradiction. Qed.
+
+(* d[k] with the str of a Coq string = the model's assoc (KS s) *)
+Lemma assoc_p_spec s : forall l, assoc_p (pstr_of_string s) l = assoc (KS s) l.
+Proof.
+  induction l as [|[[s'|z] v] r IH]; [reflexivity| |exact IH].
+  cbn [assoc_p assoc key_eqb]. destruct (String.eqb_spec s s') as [<-|N].
+  - rewrite pstr_eqb_refl. reflexivity.
+  - rewrite pstr_eqb_neq; [exact IH|]. intros E. apply pstr_of_string_inj in E. congruence.
+Qed.
+
+(* KeyError -> None (the handler with the default None); every other exception propagates *)
+Definition catch_key (r : result node) : result (option node) :=
+  match r with Ok v => Ok (Some v) | Raise E_KeyError => Ok None | Raise e => Raise e end.
+
+Lemma loop_is_lookup : forall path n, catch_key (glue_Locale_get_loop n (map pstr_of_string path)) = lookup n path.
+Proof.
+  induction path as [|k rest IH]; intros n; [reflexivity|].
+  cbn [map glue_Locale_get_loop lookup]. unfold glue_Locale_get_step, node_getitem.
+  destruct n as [raw t|z| |l]; try reflexivity.
+  rewrite assoc_p_spec. destruct (assoc (KS k) l) as [n'|]; [|reflexivity]. apply IH.
+Qed.
+
+(* what a call with an EMPTY memo and the default None computes *)
+Definition get_fresh (L : locale) (key : pstr) : result (option node) := catch_key (glue_Locale_get_loop (l_data L) (psplit 46 key)).
+
+Lemma psplit_nonempty sep : forall s, psplit sep s <> [].
+Proof. induction s as [|c r IH]; cbn [psplit]; [discriminate|]. destruct (c =? sep); [discriminate|]. destruct (psplit sep r); discriminate. Qed.
+
+(* every entry of the memo is what a fresh call on its key returns *)
+Definition kc_ok (L : locale) (c : gkcache) : Prop := forall k v, kc_get_opt c k = Some v -> get_fresh L k = Ok v.
+Lemma kc_ok_nil L : kc_ok L []. Proof. intros k v H. discriminate. Qed.
+Lemma kc_ok_set L c k v : kc_ok L c -> get_fresh L k = Ok v -> kc_ok L (kc_set c k v).
+Proof.
+  intros K G k' v' H. unfold kc_set in H. cbn [kc_get_opt] in H. destruct (pstr_eqb k k') eqn:E.
+  - injection H as <-. apply pstr_eqb_eq in E. subst k'. exact G.
+  - exact (K k' v' H).
+Qed.
+
+Lemma try_body_is_loop L key :
+  match node_getitem (l_data L) (lp_head (psplit 46 key)) with
+  | Raise e => Raise e
+  | Ok m => match glue_Locale_get_loop m (lp_tail (psplit 46 key)) with Raise e => Raise e | Ok m2 => Ok m2 end
+  end = glue_Locale_get_loop (l_data L) (psplit 46 key).
+Proof.
+  pose proof (psplit_nonempty 46 key) as NE. destruct (psplit 46 key) as [|h t]; [congruence|].
+  cbn [lp_head lp_tail glue_Locale_get_loop]. unfold glue_Locale_get_step.
+  destruct (node_getitem (l_data L) h) as [m|e]; [|reflexivity]. destruct (glue_Locale_get_loop m t); reflexivity.
+Qed.
+
+Theorem glue_Locale_get_fresh L c key : kc_ok L c ->
+  match glue_Locale_get c L key None with
+  | Ok (v, c') => get_fresh L key = Ok v /\ kc_ok L c'
+  | Raise e => get_fresh L key = Raise e
+  end.
+Proof.
+  intros K. unfold glue_Locale_get. cbv zeta. unfold kc_has. destruct (kc_get_opt c key) as [v|] eqn:G.
+  - unfold kc_get. rewrite G. split; [exact (K key v G)|exact K].
+  - rewrite try_body_is_loop. unfold get_fresh.
+    assert (S : forall v, get_fresh L key = Ok v -> kc_get (kc_set c key v) key = v /\ kc_ok L (kc_set c key v)).
+    { intros v F. split; [|exact (kc_ok_set L c key v K F)]. unfold kc_get, kc_set. cbn [kc_get_opt]. rewrite pstr_eqb_refl. reflexivity. }
+    unfold get_fresh in S. destruct (glue_Locale_get_loop (l_data L) (psplit 46 key)) as [v|e]; cbn [catch_key] in *.
+    + destruct (S (Some v) eq_refl) as [A B]. rewrite A. split; [reflexivity|exact B].
+    + destruct e; try reflexivity. destruct (S None eq_refl) as [A B]. rewrite A. split; [reflexivity|exact B].
+Qed.
+
+(* the memo is transparent: what get returns does not depend on the contents of _key_cache *)
+Corollary key_cache_is_transparent L c1 c2 key : kc_ok L c1 -> kc_ok L c2 ->
+  match glue_Locale_get c1 L key None, glue_Locale_get c2 L key None with
+  | Ok (v1, _), Ok (v2, _) => v1 = v2
+  | Raise e1, Raise e2 => e1 = e2
+  | _, _ => False
+  end.
+Proof.
+  intros K1 K2. pose proof (glue_Locale_get_fresh L c1 key K1) as H1. pose proof (glue_Locale_get_fresh L c2 key K2) as H2.
+  destruct (glue_Locale_get c1 L key None) as [[v1 c1']|e1], (glue_Locale_get c2 L key None) as [[v2 c2']|e2].
+  - destruct H1 as [A1 _], H2 as [A2 _]. congruence.
+  - destruct H1 as [A1 _]. congruence.
+  - destruct H2 as [A2 _]. congruence.
+  - congruence.
+Qed.
+
+(* ---------- a dotted key and its path ---------- *)
+Definition dot_free (s : pstr) : bool := forallb (fun c => negb (c =? 46)) s.
+Definition dotted (path : list string) : pstr := join [46] (map pstr_of_string path).
+
+Lemma psplit_dot_free : forall a, dot_free a = true -> psplit 46 a = [a].
+Proof.
+  induction a as [|c r IH]; intros H; [reflexivity|]. cbn [dot_free forallb] in H. apply andb_true_iff in H. destruct H as [H1 H2].
+  cbn [psplit]. destruct (c =? 46); [discriminate|]. rewrite (IH H2). reflexivity.
+Qed.
+Lemma psplit_app : forall a b, dot_free a = true -> psplit 46 (a ++ 46 :: b) = a :: psplit 46 b.
+Proof.
+  induction a as [|c r IH]; intros b H; [reflexivity|]. cbn [dot_free forallb] in H. apply andb_true_iff in H. destruct H as [H1 H2].
+  cbn [app psplit]. destruct (c =? 46); [discriminate|]. rewrite (IH b H2). reflexivity.
+Qed.
+Lemma psplit_dotted : forall path, path <> [] -> forallb (fun s => dot_free (pstr_of_string s)) path = true ->
+  psplit 46 (dotted path) = map pstr_of_string path.
+Proof.
+  unfold dotted. induction path as [|a [|b r] IH]; intros NE H; [congruence| |].
+  - cbn [map join]. cbn [forallb] in H. apply andb_true_iff in H. apply psplit_dot_free. exact (proj1 H).
+  - cbn [forallb] in H. apply andb_true_iff in H. destruct H as [H1 H2].
+    change (join [46] (map pstr_of_string (a :: b :: r))) with (pstr_of_string a ++ 46 :: join [46] (map pstr_of_string (b :: r))).
+    rewrite (psplit_app _ _ H1), IH; [reflexivity|discriminate|exact H2].
+Qed.
+
+Lemma get_fresh_path L path : path <> [] -> forallb (fun s => dot_free (pstr_of_string s)) path = true ->
+  get_fresh L (dotted path) = lget L path.
+Proof. intros NE H. unfold get_fresh, lget. rewrite (psplit_dotted path NE H). apply loop_is_lookup. Qed.
+
+(* Locale.get(key) for the key "p1.p2...pn" = LocaleBase.lookup on [p1; ...; pn] (Locale.get's model), whatever the memo holds *)
+Theorem glue_Locale_get_spec L c path : kc_ok L c -> path <> [] -> forallb (fun s => dot_free (pstr_of_string s)) path = true ->
+  match glue_Locale_get c L (dotted path) None with
+  | Ok (v, c') => lget L path = Ok v /\ kc_ok L c'
+  | Raise e => lget L path = Raise e
+  end.
+Proof. intros K NE H. rewrite <- (get_fresh_path L path NE H). exact (glue_Locale_get_fresh L c (dotted path) K). Qed.
+
+Lemma translations_dotted path : path <> [] -> pcat s_translations_dot (dotted path) = dotted ("translations"%string :: path).
+Proof. intros NE. destruct path as [|a r]; [congruence|]. reflexivity. Qed.
+
+Theorem glue_Locale_translation_spec L c path : kc_ok L c -> path <> [] -> forallb (fun s => dot_free (pstr_of_string s)) path = true ->
+  match glue_Locale_translation c L (dotted path) with
+  | Ok (v, c') => lget L ("translations"%string :: path) = Ok v /\ kc_ok L c'
+  | Raise e => lget L ("translations"%string :: path) = Raise e
+  end.
+Proof.
+  intros K NE H. unfold glue_Locale_translation. rewrite (translations_dotted path NE).
+  assert (H' : forallb (fun s => dot_free (pstr_of_string s)) ("translations"%string :: path) = true) by (cbn [forallb]; rewrite H; reflexivity).
+  pose proof (glue_Locale_get_spec L c ("translations"%string :: path) K ltac:(discriminate) H') as G.
+  destruct (glue_Locale_get c L (dotted ("translations"%string :: path)) None) as [[v c']|e]; exact G.
+Qed.
+
+(* ---------- the hand primitives of in_words / ordinalize are these translations ---------- *)
+Definition locale_classes_dot_free (L : locale) : bool :=
+  forallb (fun s => dot_free (pstr_of_string s)) (leaves (l_plural L)) && forallb (fun s => dot_free (pstr_of_string s)) (leaves (l_ordinal L)).
+Lemma all_classes_dot_free : forallb locale_classes_dot_free all_locales = true.
+Proof. vm_compute. reflexivity. Qed.
+Lemma seval_leaf : forall e n, In (seval e n) (leaves e).
+Proof.
+  induction e as [s|c t IHt f IHf]; intros n; cbn [seval leaves].
+  - left; reflexivity.
+  - apply in_or_app. destruct (beval c n); [left; apply IHt | right; apply IHf].
+Qed.
+Lemma plural_dot_free L n : In L all_locales -> dot_free (pstr_of_string (lplural L n)) = true.
+Proof.
+  intros I. pose proof all_classes_dot_free as H. rewrite forallb_forall in H. specialize (H L I). apply andb_true_iff in H. destruct H as [H _].
+  rewrite forallb_forall in H. apply H. apply seval_leaf.
+Qed.
+Lemma ordinal_dot_free L n : In L all_locales -> dot_free (pstr_of_string (lordinal L n)) = true.
+Proof.
+  intros I. pose proof all_classes_dot_free as H. rewrite forallb_forall in H. specialize (H L I). apply andb_true_iff in H. destruct H as [_ H].
+  rewrite forallb_forall in H. apply H. apply seval_leaf.
+Qed.
+
+(* loaded_locale.translation(f"units.{u}.{cls}") of in_words: the hand primitive loc_translation IS the translated Locale.translation on that key *)
+Theorem loc_translation_is_code L c u cls : kc_ok (gl_data L) c -> dot_free (pstr_of_string u) = true -> dot_free (pstr_of_string cls) = true ->
+  match glue_Locale_translation c (gl_data L) (dotted ["units"%string; u; cls]) with
+  | Ok (v, c') => loc_translation L (mk_ukey u cls) = Ok v /\ kc_ok (gl_data L) c'
+  | Raise e => loc_translation L (mk_ukey u cls) = Raise e
+  end.
+Proof.
+  intros K Hu Hc. apply (glue_Locale_translation_spec (gl_data L) c ["units"%string; u; cls] K); [discriminate|].
+  cbn [forallb]. rewrite Hu, Hc. reflexivity.
+Qed.
+Theorem loc_get_custom_ordinal_is_code L c cls : kc_ok L c -> dot_free (pstr_of_string cls) = true ->
+  match glue_Locale_get c L (dotted ["custom"%string; "ordinal"%string; cls]) None with
+  | Ok (v, c') => loc_get_custom_ordinal L cls = Ok v /\ kc_ok L c'
+  | Raise e => loc_get_custom_ordinal L cls = Raise e
+  end.
+Proof.
+  intros K Hc. apply (glue_Locale_get_spec L c ["custom"%string; "ordinal"%string; cls] K); [discriminate|].
+  cbn [forallb]. rewrite Hc. reflexivity.
+Qed.
+
+(* every key in_words builds (a unit of its literal, or second / microsecond of the fallback; the plural class of any number) on a shipped locale
+   satisfies the dot-free premises: there the hand primitive is the translated Locale.translation, unconditionally *)
+Theorem in_words_translation_is_code L c w u n : In (gl_data L) all_locales -> kc_ok (gl_data L) c ->
+  In u (List.app (map fst (glue_Duration_in_words_intervals w)) ["second"%string; "microsecond"%string]) ->
+  match glue_Locale_translation c (gl_data L) (dotted ["units"%string; u; loc_plural L n]) with
+  | Ok (v, c') => loc_translation L (mk_ukey u (loc_plural L n)) = Ok v /\ kc_ok (gl_data L) c'
+  | Raise e => loc_translation L (mk_ukey u (loc_plural L n)) = Raise e
+  end.
+Proof.
+  intros I K U. apply loc_translation_is_code; [exact K| |exact (plural_dot_free (gl_data L) n I)].
+  cbn in U. repeat (destruct U as [<-|U]; [reflexivity|]). contradiction.
+Qed.
+Theorem ordinalize_get_is_code L c n : In L all_locales -> kc_ok L c ->
+  match glue_Locale_get c L (dotted ["custom"%string; "ordinal"%string; glue_Locale_ordinal L n]) None with
+  | Ok (v, c') => loc_get_custom_ordinal L (glue_Locale_ordinal L n) = Ok v /\ kc_ok L c'
+  | Raise e => loc_get_custom_ordinal L (glue_Locale_ordinal L n) = Raise e
+  end.
+Proof. intros I K. apply loc_get_custom_ordinal_is_code; [exact K|exact (ordinal_dot_free L n I)]. Qed.
